@@ -230,6 +230,11 @@ class CounterToken(Token, FileSystemEventHandler):
         self.watcher = ipcom().fswatch(self, self.path, recursive=True)
         logger.info("Watching %s", self.watchedpath)
 
+        # Token files reclaimed between the first scan and the start of the
+        # watcher produce no event: count again
+        with self.lock, self.ipc_lock:
+            self._update()
+
     def _update(self):
         """Update the state by reading all the information from disk
 
